@@ -375,6 +375,9 @@ pub fn scripts() -> Vec<(&'static str, Vec<String>)> {
         ("go-position-isready-stop", v(&["go infinite", "position startpos moves e2e4", "isready", "stop"])),
         ("go-isready-stop-position-go", v(&["go infinite", "isready", "stop", "position startpos moves e2e4", "go depth 1"])),
         ("stop-first", v(&["stop", "go depth 1", "isready"])),
+        ("go-stop-go-bounded", v(&["go depth 1", "stop", "go depth 1"])),
+        ("go-ucinewgame-stop", v(&["go infinite", "ucinewgame", "stop", "isready"])),
+        ("double-stop", v(&["go infinite", "stop", "stop", "go depth 1"])),
     ]
 }
 
